@@ -332,6 +332,61 @@ impl Check {
         matches!(self.mode, Mode::Replay { .. })
     }
 
+    /// For machinery outside `run` (iso, sched, crash, net): the replay request, if any.
+    pub fn replay_request(&self) -> Option<(String, serde_json::Value, PathBuf)> {
+        match &self.mode {
+            Mode::Replay { path, section, case } => Some((section.clone(), case.clone(), path.clone())),
+            Mode::Run => None,
+        }
+    }
+
+    /// Conclude an external replay: `fail` = Some((key, msg)) if the case still fails.
+    pub fn conclude_replay(&self, path: &std::path::Path, fail: Option<(String, String)>) -> ! {
+        match fail {
+            None => {
+                println!("replay {}: property held", path.display());
+                std::process::exit(0);
+            }
+            Some((key, msg)) => {
+                if self.known.is_open(&key) {
+                    println!("KNOWN-FINDING: property={} {}", self.id, self.known.what(&key).unwrap_or(key));
+                    std::process::exit(0);
+                }
+                println!("replay failure key={key} msg={msg}");
+                println!("VIOLATION property={} replay={}", self.id, path.display());
+                std::process::exit(1);
+            }
+        }
+    }
+
+    /// Regression replays stored for a section (for external machinery).
+    pub fn stored_replays(&self, section: &str) -> Vec<(PathBuf, serde_json::Value)> {
+        let mut out = Vec::new();
+        let dir = verif_dir().join("replays").join(self.id);
+        if let Ok(rd) = std::fs::read_dir(&dir) {
+            let mut files: Vec<_> = rd.filter_map(|e| e.ok()).map(|e| e.path()).collect();
+            files.sort();
+            for p in files {
+                if p.extension().and_then(|e| e.to_str()) != Some("json") {
+                    continue;
+                }
+                let Ok(txt) = std::fs::read_to_string(&p) else { continue };
+                let Ok(rf) = serde_json::from_str::<ReplayFile>(&txt) else { continue };
+                if rf.section == section {
+                    out.push((p, rf.case));
+                }
+            }
+        }
+        out
+    }
+
+    pub fn section_enabled(&self, name: &str) -> bool {
+        match &self.only {
+            Some(only) => only.iter().any(|s| s == name),
+            None => true,
+        }
+    }
+
     pub fn assume(&mut self, s: impl Into<String>) {
         self.assumptions.push(s.into());
     }
@@ -416,6 +471,12 @@ impl Check {
             }
             match v.fail {
                 None => {
+                    if !v.known_hits.is_empty() {
+                        for k in &v.known_hits {
+                            println!("KNOWN-FINDING: property={} {}", self.id, self.known.what(k).unwrap_or(k.clone()));
+                        }
+                        std::process::exit(0);
+                    }
                     println!("replay {}: property held", path.display());
                     std::process::exit(0);
                 }
